@@ -751,7 +751,7 @@ def scn_far(tier):
 def scn_many_sheets(rng, tier):
     out = []
     counts = [1, 2, 3, 4, 5, 6, 12, 40] if tier != 'thorough' else [1, 2, 3, 4, 5, 6, 7, 11, 12, 13, 40, 101]
-    reps = 3 if tier != 'thorough' else 6
+    reps = 3 if tier != 'thorough' else 8
     for n in counts:
         for rep in range(reps):
             for shape in ('free', 'shrinking', 'growing', 'empties'):
@@ -1007,7 +1007,7 @@ def scn_overrides(rng, tier):
 
 def scn_random(rng, tier):
     out = []
-    nb = 60 if tier != 'thorough' else 1500
+    nb = 60 if tier != 'thorough' else 2500
     for b in range(nb):
         safe = b % 5 != 0
         out.append({'group': 'random_layouts', 'books': [{'spec': gen_book(rng, None, safe), 'safety': safe}], 'seed': b})
@@ -1221,6 +1221,8 @@ def run(tier='quick', seed=0):
                     scn, what = small, w2
             fails.append({'key': k, 'what': what, 'replay': {'scenario': scn, 'key': k}})
         bound, exhaustive = GROUPS[name]
+        if name == 'equal_across_types' and tier != 'thorough':     # quick: one-per-workbook part on two families only
+            exhaustive = False
         checks.append({'name': f'C18.monitor.{name}', 'bound': f'{bound}; {g["n"]} workbook scenarios', 'rule': RULE +
                        f' ({g["skipped"]} skipped here)', 'exhaustive': exhaustive, 'evaluations': g['evals'],
                        'distinct_nontrivial': g['nontrivial'], 'failures': fails[:25], 'samples': g['samples'],
